@@ -22,6 +22,10 @@ ASSUMPTIONS = [
     "sending after the *client's* disconnect is not judged (the statement's automaton is about the application side)",
 ]
 
+def _code(idx):
+    return (1012, 4001, 1013, 4999, 1014, 3000, 1000, 1011)[idx % 8]  # close codes an endpoint may send (RFC 6455 7.4 + the IANA registry), the ends of the ranges among them
+
+
 def _text(idx):
     return "" if idx % 3 == 2 else f"s{idx}"  # an empty frame is a frame
 
@@ -117,7 +121,8 @@ def run_scenario(ctx, calls, script_tag, events, overlap=None, send_fail=None, e
             await Never()  # the server's send() is slow: another task may use the socket meanwhile
             in_send[0] = False
 
-    scope = {"type": "websocket", "headers": [], "path": "/", "query_string": b""}
+    # the client offers three subprotocols, written the way RFC 9110 lists may be written (no blank, blank + TAB around the commas)
+    scope = {"type": "websocket", "headers": [(b"sec-websocket-protocol", b"chat,proto \t, v2")], "subprotocols": ["chat", "proto", "v2"], "path": "/", "query_string": b""}
     if ext:
         # the server offers the denial-response extension: nothing about the wrapper's own operations changes
         scope["extensions"] = {"websocket.http.response": {}}
@@ -155,7 +160,7 @@ def run_scenario(ctx, calls, script_tag, events, overlap=None, send_fail=None, e
         elif call == "close":
             coro = ws.close()
         elif call == "close_code":
-            coro = ws.close(4000 + idx, "bye")
+            coro = ws.close(_code(idx), "bye")
         elif call == "raw_accept":
             coro = ws.send({"type": "websocket.accept"})
         elif call == "raw_send":
@@ -271,7 +276,7 @@ def run_scenario(ctx, calls, script_tag, events, overlap=None, send_fail=None, e
                             V("send_bytes-payload", repr(m))
                         if call == "accept_sub" and m.get("subprotocol") != "proto":
                             V("accept-subprotocol", repr(m))
-                        if call == "close_code" and m.get("code") != 4000 + idx:
+                        if call == "close_code" and m.get("code") != _code(idx):
                             V("close-code", repr(m))
                     a = "CONNECTED" if mtype == "accept" else ("DISCONNECTED" if mtype == "close" else a)
                 else:
